@@ -22,6 +22,16 @@
 (*                                   (d, k) - logged BEFORE the mod event  *)
 (*   hold  s t p lossy              what the light client holds: leaves s  *)
 (*                                   with targets t and proof hashes p     *)
+(*   pop   inst op s                a partial forest was asked to remember *)
+(*                                   (op = vrem, ingest) or to forget      *)
+(*                                   (op = prune) the leaves s             *)
+(*   stored inst cached nodes       dump of a partial forest: the leaves   *)
+(*                                   in its index and every stored         *)
+(*                                   [row, idx, hash]                      *)
+(* pc[inst] is the set of leaves the partial forest `inst' must remember,  *)
+(* followed as in Partial.tla (mod carries prem: per instance the added    *)
+(* slots it was asked to remember; an undo brings the deleted leaves back  *)
+(* remembered).                                                            *)
 (* The mod event also carries rem, the slots a light client asked to       *)
 (* remember; the specification follows what that client must hold, as in   *)
 (* LightClient.tla: held' = (held \ d) \cup rem, and after an undo what it *)
@@ -32,8 +42,8 @@
 (***************************************************************************)
 EXTENDS Forest, Json, TLCExt
 
-VARIABLES l, n, live, held, stack, bad
-tvars == <<l, n, live, held, stack, bad>>
+VARIABLES l, n, live, held, pc, stack, bad
+tvars == <<l, n, live, held, pc, stack, bad>>
 
 TraceLog == ndJsonDeserialize("trace.ndjson")
 
@@ -77,8 +87,21 @@ HoldOK(e) ==
      /\ e.t = [i \in 1..Len(cp.t) |-> JP(cp.t[i])]
      /\ e.p = cp.p
 
+\* C09: index exact, stored hashes true, stored positions within the bounds
+PCOf(i) == IF i \in DOMAIN pc THEN pc[i] ELSE {}
+StoredOK(e) ==
+  LET nds == Nodes(n, live)
+      C   == PCOf(e.inst)
+      st  == {Pos(e.nodes[i][1], e.nodes[i][2]) : i \in 1..Len(e.nodes)}
+  IN  /\ SetOf(e.cached) = C
+      /\ \A i \in 1..Len(e.nodes) : e.nodes[i][3] = NodeAtIn(nds, Pos(e.nodes[i][1], e.nodes[i][2]))
+      /\ StoredLower(n, nds, C) \subseteq st
+      /\ st \subseteq StoredUpper(n, nds, C)
+
 Check(e) ==
   CASE e.ev = "roots" -> RootsOK(e)
+    [] e.ev = "stored" -> StoredOK(e)
+    [] e.ev = "pop"   -> SetOf(e.s) \subseteq (0..(n - 1))
     [] e.ev = "hold"  -> HoldOK(e)
     [] e.ev = "pos"   -> PosOK(e)
     [] e.ev = "proof" -> ProofOK(e)
@@ -87,22 +110,31 @@ Check(e) ==
     [] e.ev = "undo"  -> stack # <<>>
     [] OTHER          -> TRUE
 
-TraceInit == l = 1 /\ n = 0 /\ live = {} /\ held = {} /\ stack = <<>> /\ bad = {} /\ TLCSet(1, 1)
+TraceInit == l = 1 /\ n = 0 /\ live = {} /\ held = {} /\ pc = <<>> /\ stack = <<>> /\ bad = {} /\ TLCSet(1, 1)
 
 TraceNext ==
   /\ l <= Len(TraceLog)
   /\ LET e == TraceLog[l] IN
      /\ bad' = IF Check(e) THEN bad ELSE bad \cup {l}
-     /\ CASE e.ev = "reset" -> n' = 0 /\ live' = {} /\ held' = {} /\ stack' = <<>>
+     /\ CASE e.ev = "reset" -> n' = 0 /\ live' = {} /\ held' = {} /\ pc' = <<>> /\ stack' = <<>>
           [] e.ev = "mod"   -> /\ n' = n + e.k
                                /\ live' = (live \ SetOf(e.d)) \cup (n..(n + e.k - 1))
                                /\ held' = (held \ SetOf(e.d)) \cup SetOf(e.rem)
+                               /\ pc' = [i \in DOMAIN pc \cup {e.prem[j][1] : j \in 1..Len(e.prem)} |->
+                                           (PCOf(i) \ SetOf(e.d)) \cup
+                                           UNION {SetOf(e.prem[j][2]) : j \in {jj \in 1..Len(e.prem) : e.prem[jj][1] = i}}]
                                /\ stack' = <<[n |-> n, live |-> live]>> \o stack
           [] e.ev = "undo" /\ stack # <<>> ->
                                /\ n' = Head(stack).n /\ live' = Head(stack).live
                                /\ held' = {x \in held : x < Head(stack).n}
+                               /\ pc' = [i \in DOMAIN pc |-> {x \in pc[i] : x < Head(stack).n} \cup (Head(stack).live \ live)]
                                /\ stack' = Tail(stack)
-          [] OTHER          -> UNCHANGED <<n, live, held, stack>>
+          [] e.ev = "pop"   -> /\ pc' = [i \in DOMAIN pc \cup {e.inst} |->
+                                           IF i # e.inst THEN PCOf(i)
+                                           ELSE IF e.op = "prune" THEN PCOf(i) \ SetOf(e.s)
+                                           ELSE PCOf(i) \cup (SetOf(e.s) \cap live)]
+                               /\ UNCHANGED <<n, live, held, stack>>
+          [] OTHER          -> UNCHANGED <<n, live, held, pc, stack>>
   /\ l' = l + 1
 
 TraceSpec == TraceInit /\ [][TraceNext]_tvars
